@@ -139,7 +139,30 @@ func recycleSolver2() {
 	solver2 = newSolver2()
 	solver2Base = 0
 }
+
+// recycleSolver2InPath does the same in the middle of a path (a single path of the HPACK and
+// scheduler harnesses can carry thousands of obligations): the fresh process gets the path's scope
+// and its path condition again.
+func recycleSolver2InPath() {
+	if solver2 == nil || newSolver2 == nil || px == nil || solver2.queries-solver2Base < 400 {
+		return
+	}
+	solver2.Close()
+	solver2 = newSolver2()
+	solver2Base = 0
+	solver2.Push()
+	for _, t := range px.pc {
+		solver2.Assert(t)
+	}
+}
 var crossChecks, crossUnknown int
+
+// crossTime is the wall time this worker has spent in the cross-check solver for the current
+// harness; beyond crossBudget the remaining obligations of the harness are decided by the primary
+// solver alone (the evidence reports how many were cross-checked).
+var crossTime time.Duration
+
+const crossBudget = 90 * time.Second
 
 func recordDecision(d decision) {
 	px.trace = append(px.trace, d)
@@ -340,13 +363,29 @@ func assertProp(c *Term, tag string) {
 	}
 	if r == resUnknown {
 		r = portfolioCheck(c)
-	} else if solver2 != nil {
-		var r2 satResult
-		if c.isFalse() {
-			r2 = solver2.Check()
-		} else {
-			r2 = solver2.Check(mkNot(c))
-		}
+	} else if solver2 != nil && crossTime < crossBudget {
+		t0 := time.Now()
+		recycleSolver2InPath()
+		r2 := func() (r2 satResult) {
+			defer func() {
+				if e := recover(); e != nil {
+					// the cross-check process died (memory cap) or answered garbage: not a verdict; start over
+					solver2.Close()
+					solver2 = newSolver2()
+					solver2Base = 0
+					solver2.Push()
+					for _, t := range px.pc {
+						solver2.Assert(t)
+					}
+					r2 = resUnknown
+				}
+			}()
+			if c.isFalse() {
+				return solver2.Check()
+			}
+			return solver2.Check(mkNot(c))
+		}()
+		crossTime += time.Since(t0)
 		crossChecks++
 		if r2 == resUnknown {
 			crossUnknown++
